@@ -24,7 +24,7 @@ ASSUMPTIONS = ['oracle: atan2(|a x b|, a.b) separation and tangent-basis positio
 MIN_REACH = {'angle_tools:gcd': 1, 'angle_tools:bear': 1, 'angle_tools:translate': 1,
              'angle_tools:dec2dms': 1, 'angle_tools:dec2hms': 1, 'angle_tools:dec2dec': 1}
 MIN_COUNTERS = {'contract_gcd': 10, 'contract_bear': 10, 'contract_translate': 10, 'contract_dms': 10,
-                'contract_hms': 10, 'parse_padded': 1000, 'contract_bear_from_exact_pole': 50, 'translate_destination_is_a_pole': 1000, 'int_variants_checked': 4, 'catalogue_string_rows': 10}
+                'contract_hms': 10, 'parse_padded': 1000, 'contract_bear_from_exact_pole': 50, 'translate_destination_is_a_pole': 1000, 'int_variants_checked': 4, 'catalogue_string_rows': 10, 'translate_mixed_shape_calls': 20}
 
 TOL = 1e-9          # degrees, from the statement
 _OBS = None         # the Obs the installed contracts record into
@@ -332,6 +332,26 @@ def run(case):
                 t = rng.choice([0.0, 90.0, 180.0, 270.0, 360 - 1e-9, 45.0], n)
                 ra = rng.choice([0.0, 359.9999999, 180.0], n)
             ro, do = at.translate(ra, dec, r, t)
+            # mixtures of scalars and arrays, and arrays of different broadcastable shapes (a circle outline around one point,
+            # a ray of distances, one offset applied to a whole catalogue): same answers as the element-wise calls
+            m = 24
+            for name, args in (('point_scalar_outline_array', (float(ra[0]), float(dec[0]), float(r[0]), t[:m])),
+                               ('ray_of_distances', (float(ra[1]), float(dec[1]), r[:m], float(t[1]))),
+                               ('catalogue_one_offset', (ra[:m], dec[:m], float(r[2]), float(t[2]))),
+                               ('column_times_row', (ra[:4, None], dec[:4, None], r[None, :5], t[None, :5]))):
+                try:
+                    rm, dm = at.translate(*args)
+                except Exception as e:
+                    o.violate('translate_mixed_shapes_raises', {'form': name, 'exc': repr(e)[:300]})
+                    continue
+                o.count('translate_mixed_shape_calls')
+                bc = np.broadcast_arrays(*[np.asarray(a_, dtype=float) for a_ in args])
+                exp = [at.translate(float(a_), float(b_), float(c_), float(d_)) for a_, b_, c_, d_ in zip(*[b_.ravel() for b_ in bc])]
+                er = np.array([e_[0] for e_ in exp]).reshape(bc[0].shape)
+                ed = np.array([e_[1] for e_ in exp]).reshape(bc[0].shape)
+                rm, dm = np.asarray(rm, dtype=float), np.asarray(dm, dtype=float)
+                if rm.shape != er.shape or not (np.all(np.abs(sphere.angdiff(rm, er)) <= 1e-12) and np.all(np.abs(dm - ed) <= 1e-12)):
+                    o.violate('scalar_vs_array', {'form': name, 'shape': list(rm.shape), 'expected_shape': list(er.shape)})
             for i in rng.integers(0, n, 200):
                 rs, ds = at.translate(float(ra[i]), float(dec[i]), float(r[i]), float(t[i]))
                 if not (abs(sphere.angdiff(rs, ro[i])) <= 1e-12 and abs(ds - do[i]) <= 1e-12):
